@@ -202,7 +202,8 @@ def run_history(g, payload, hist, rename, acc, fam):
     from numba_scfg.core.datastructures.scfg import SCFG
     Monitor.install()
     scfg = make_scfg(g, payload, rename)
-    names0 = [rename[i] if rename else str(i) for i in range(len(g))]
+    from ..families import nm as _nm
+    names0 = [rename[i] if rename else _nm(i) for i in range(len(g))]
     G0 = {names0[i]: tuple(names0[t] for t in row) for i, row in enumerate(g)}
     seen = set()
 
@@ -267,6 +268,16 @@ def _work(args):
         acc.counters[f"graphs[{fam}]"] += 1
         for hist in opts["histories"]:
             run_history(g, "basic", hist, None, acc, fam)
+        if 2 <= len(g) <= 4:
+            from ..families import labelings, set_labeling
+            try:
+                for lab in labelings(len(g), "few"):
+                    set_labeling(lab)
+                    acc.counters[f"graphs[{fam}~relabelled]"] += 1
+                    for hist in histories(1):
+                        run_history(g, "basic", hist, None, acc, fam + "~")
+            finally:
+                set_labeling(None)
         if opts.get("namespace"):
             n = len(g)
             # entry keeps a neutral name; every other block gets a name from the generator's namespace
